@@ -6,7 +6,7 @@ from hypothesis.extra import numpy as hnp
 from .. import gen, ref
 from ..core import Clause, Out, Property
 from ..env import L
-from ..lib import F, Q, S, ahash
+from ..lib import F, Q, S, ahash, case_flag, quiet
 
 U_ = ref.U
 
@@ -163,11 +163,11 @@ def long_systems(draw, tier):
 
 def solve(case_or_A, b=None, tol=1e-6, cap=None, prec=None, sparse=False):
     A = case_or_A
-    solver = L.solver.QGMRESSolver(tol=tol, max_iter=cap, verbose=False, preconditioner=prec)
+    solver = L.solver.QGMRESSolver(tol=tol, max_iter=cap, verbose=case_flag(A, 6), preconditioner=prec)   # verbose: same result
     Aarg = S(A) if sparse else Q(A)
     barg = Q(b)
     hA, hb = ahash(Aarg), ahash(barg)
-    x, info = solver.solve(Aarg, barg)
+    x, info = quiet(solver.solve, Aarg, barg)
     unchanged = (ahash(Aarg) == hA and ahash(barg) == hb)
     return F(np.asarray(x)), info, unchanged
 
